@@ -119,10 +119,10 @@ func (d *lazyDir) file() (experimentalsys.File, bool) {
 	switch errno {
 	case 0:
 		return d.f, true
-	case experimentalsys.ENOENT:
-		return nil, false
 	default:
-		panic(errno) // unexpected
+		// ENOENT, or whatever else the guest made of the mount point meanwhile (e.g. ELOOP after replacing the
+		// directory by a symbolic link to itself): the callers answer EBADF.
+		return nil, false
 	}
 }
 
